@@ -25,6 +25,8 @@ EntryBad(r, h) ==
   \* nothing is held for the leader's id beyond what the leader has, unless the follower brought it along
   \cup (IF h.hist = 1 /\ h.right > r.leaderRight /\ ~(r.follower.hist = 1 /\ h.right = r.follower.right)
         THEN {"C16_BeyondLeader"} ELSE {})
+  \* (after a full resynchronisation of the leader: nothing under the new id beyond the new history's end)
+  \cup (IF r.fkind = "switch" /\ h.hist = 2 /\ h.right > r.leader2.right THEN {"C16_BeyondLeader"} ELSE {})
 
 Bad(r) ==
   UNION {EntryBad(r, r.held[i]) : i \in 1..Len(r.held)}
@@ -37,6 +39,10 @@ Bad(r) ==
   \cup (IF r.fkind = "ahead" /\ r.follower.right > r.leaderRight /\ r.interrupt = 0 /\ r.calls >= 2 /\ r.result # "takeover" /\
            ~\E i \in 1..Len(r.leaderCalls) : r.leaderCalls[i] = "handover"
         THEN {"C16_AheadFollowerNotOfferedLeadership"} ELSE {})
+  \* the leader went through a full resynchronisation under a new id while this follower lagged behind: the follower
+  \* gives its copy of the old history up and follows the new one (it retries every 3 s; 20 s without any progress
+  \* were waited for), it does not go on under the old label
+  \cup (IF r.fkind = "switch" /\ ~r.caughtUp2 /\ r.result = "stopped" THEN {"C16_KeepsOldHistoryAfterLeaderResync"} ELSE {})
   \* offsets of unrelated histories are not comparable: no hand-over to a foreign id
   \cup (IF Foreign(r) /\ (r.result = "takeover" \/ \E i \in 1..Len(r.leaderCalls) : r.leaderCalls[i] = "handover")
         THEN {"C16_LeadershipOfferedToForeignHistory"} ELSE {})
